@@ -35,6 +35,10 @@ var pureLibs = map[string]bool{
 	"base64.(*Encoding).EncodeToString": true, "(*base64.Encoding).EncodeToString": true,
 	"(*base64.Encoding).DecodeString": true, "metadata.Join": true, "(metadata.MD).Copy": true,
 	"metadata.NewIncomingContext": true, "context.WithTimeout": true, "context.WithCancel": true,
+	"(*sync.WaitGroup).Add": true, "(*sync.WaitGroup).Done": true, "(*sync.WaitGroup).Wait": true, "(*sync.Pool).Put": true,
+	"(http.Flusher).Flush": true, "(Compressor).Name": true, "(proto.Message).ProtoReflect": true,
+	"(protoreflect.MethodDescriptor).IsStreamingClient": true, "(protoreflect.MethodDescriptor).IsStreamingServer": true,
+	"(Codec).Name": true, "(StreamCodec).Name": true, "(encoding.Codec).Name": true,
 }
 
 func (c *FnCtx) callWrites(cc *ssa.CallCommon) []string {
@@ -53,7 +57,7 @@ func (c *FnCtx) callWrites(cc *ssa.CallCommon) []string {
 	if m := c.eng.libFor(name, cc); m != nil {
 		return m.writes
 	}
-	if fc := c.eng.contractFor(name); fc != nil {
+	if fc := c.eng.contractFor(name); fc != nil && !fc.IsPart {
 		if fc.Pure {
 			return nil
 		}
@@ -111,7 +115,7 @@ func (c *FnCtx) execCall(st *State, in ssa.Instruction, cc *ssa.CallCommon) Val 
 		c.assumptions["library contract: "+name+" — "+m.desc] = true
 		return m.apply(c, st, in, cc, args)
 	}
-	if fc := c.eng.contractFor(name); fc != nil {
+	if fc := c.eng.contractFor(name); fc != nil && !fc.IsPart {
 		return c.callContract(st, in, cc, name, fc, args, resT)
 	}
 	// call of a function value: predicates over runes are modelled as an uninterpreted application
@@ -168,6 +172,9 @@ func (c *FnCtx) callContract(st *State, in ssa.Instruction, cc *ssa.CallCommon, 
 		for i := 0; i < sig.Params().Len(); i++ {
 			pnames = append(pnames, sig.Params().At(i).Name())
 		}
+	}
+	if len(fc.Params) == len(args) {
+		pnames = fc.Params
 	}
 	if len(pnames) != len(args) {
 		panic(unsupported("call %s: %d params vs %d args", name, len(pnames), len(args)))
@@ -537,6 +544,18 @@ func (e *Engine) ghostCall(env *Env, x ECall) (Val, bool) {
 	case "UNumber":
 		e.needUnicode = true
 		return VBool{app("UNumber", env.evalInt(x.Args[0]))}, true
+	case "impl": // impl(v, "pkg.Iface"): the dynamic type of v implements the interface
+		iv, ok := env.eval(x.Args[0]).(VIface)
+		lit, ok2 := x.Args[1].(EStr)
+		if ok && ok2 {
+			t := e.lookupType(lit.V)
+			if t == nil {
+				sfail("impl: unknown type %s", lit.V)
+			}
+			return VBool{app(e.implFn(t), iv.Typ)}, true
+		}
+	case "buflen": // ghost length of a *bytes.Buffer
+		return VInt{sel(c.heapGet(env.st, "G$buf.len", arrSort(sInt)), env.evalInt(x.Args[0]))}, true
 	case "wrcalls": // number of Write calls made on w
 		id := readerID(env.eval(x.Args[0]))
 		return VInt{sel(c.heapGet(env.st, "G$wr.calls", arrSort(sInt)), id)}, true
@@ -647,3 +666,41 @@ func atoiSafe(s string) (int, bool) {
 }
 
 var _ = token.NoPos
+
+// predApp applies an opaque pure predicate: an uninterpreted symbol whose
+// definition is one quantified axiom triggered on its applications.
+func (e *Engine) predApp(env *Env, sf *SpecFunc, args []Val) Val {
+	c := env.c
+	var flat, sorts []string
+	for _, a := range args {
+		flat = append(flat, flatten(a)...)
+		sorts = append(sorts, leafSorts(a)...)
+	}
+	if _, ok := e.recDecls[sf.Name]; !ok {
+		e.recDecls[sf.Name] = fmt.Sprintf("(declare-fun %s (%s) Bool)", sf.Name, strings.Join(sorts, " "))
+		vars := map[string]Val{}
+		var decl, bound []string
+		for i, p := range sf.Params {
+			ts := flatten(args[i])
+			ss := leafSorts(args[i])
+			names := make([]string, len(ts))
+			for j := range ts {
+				names[j] = fmt.Sprintf("q.%s.%d", p, j)
+				decl = append(decl, fmt.Sprintf("(%s %s)", names[j], ss[j]))
+				bound = append(bound, names[j])
+			}
+			v, _ := rebuild(args[i], names)
+			vars[p] = v
+		}
+		n := &Env{c: c, st: &State{cells: map[*ssa.Alloc]Val{}, heap: map[string]string{}, reach: "true"}, vars: vars, noUnfold: true}
+		n.old = n.st
+		nh := len(n.st.heap)
+		body := n.evalBool(sf.Body)
+		if len(n.st.heap) != nh {
+			sfail("pred %s reads the heap; only pure predicates can be opaque", sf.Name)
+		}
+		lhs := app(sf.Name, bound...)
+		e.recAxioms[sf.Name] = fmt.Sprintf("(assert (forall (%s) (! (= %s %s) :pattern (%s))))", strings.Join(decl, " "), lhs, body, lhs)
+	}
+	return VBool{app(sf.Name, flat...)}
+}
